@@ -108,6 +108,8 @@ def in_process(editions, root, xs=(2,)):
         if i > 0:
             acts += event_actions(editions[i - 1], prog)
         ms = [n for n in prog["order"] if n[0] == "m"]
+        if i % 2 == 1:
+            ms = list(reversed(ms))          # callers first: the callees are first reached from inside a running body
         for n in ms:
             for x in xs:
                 marks.append((i, n, len(acts)))
@@ -184,6 +186,21 @@ def corpus():
     e1 = dict(defs={"m1": _fn("memento", [["m1", "bare"]], explicit="1", const=5), "m2": _fn("memento", [["m3", "bare"]]),
                     "m3": _fn("memento", [["m1", "bare"]], explicit="2", const=7)}, order=["m1", "m3", "m2"])
     out.append([e0, e1])
+    # defaults of functions under a functools.wraps decorator (plain helper, and a memento function stacked on one)
+    w0 = dict(defs={"h1": _fn("plain", [], dflt=1, kwd=5, wrapped=True), "m1": _fn("memento", [["h1", "bare"]], dflt=1, kwd=5, wrapped=True),
+                    "m2": _fn("memento", [["m1", "bare"]])}, order=["h1", "m1", "m2"])
+    w1 = json.loads(json.dumps(w0)); w1["defs"]["h1"]["dflt"] = 2
+    w2 = json.loads(json.dumps(w1)); w2["defs"]["m1"]["kwd"] = 6
+    w3 = json.loads(json.dumps(w2)); w3["defs"]["h1"]["kwd"] = 6; w3["defs"]["m1"]["dflt"] = 3
+    out.append([w0, w1, w2, w3])
+    # an explicitly versioned root whose body calls an automatically versioned function; a variable beneath it is re-bound
+    # (the callee is reached from inside the running root before anyone asks it directly)
+    x0 = dict(defs={"V1": dict(kind="var", where="mod", value=3), "h1": _fn("plain", [["V1", "bare"]]), "m1": _fn("memento", [["h1", "bare"], ["V1", "bare"]]),
+                    "m2": _fn("memento", [["m1", "bare"]], explicit="r1")}, order=["V1", "h1", "m1", "m2"])
+    x1 = json.loads(json.dumps(x0)); x1["defs"]["V1"]["value"] = 5; x1["defs"]["m2"]["explicit"] = "r2"
+    x2 = json.loads(json.dumps(x1)); x2["defs"]["h1"]["const"] = 7; x2["defs"]["m2"]["explicit"] = "r3"
+    x3 = json.loads(json.dumps(x2)); x3["defs"]["V1"]["value"] = 6; x3["defs"]["m2"]["explicit"] = "r4"
+    out.append([x0, x1, x2, x3])
     # F21: an alias re-bound between two functions that are both dependencies already
     a0 = dict(defs={"m1": _fn("memento", []), "m2": _fn("memento", [], const=2),
                     "m3": _fn("memento", [["m1", "bare"], ["m1", "alias"], ["m2", "bare"]])}, order=["m1", "m2", "m3"])
